@@ -1,129 +1,59 @@
 //! scratch probes (not registered)
-use crate::obs::{same, Tr};
-use crate::prims::pc::*;
-use crate::refsem::{self, Cnt, Env, G};
 use crate::sym::{Inp, Src};
-
+use chumsky::prelude::*;
+use crate::errs::{TagErr, MkErr};
 #[cfg(kani)]
 #[kani::proof]
-#[kani::unwind(7)]
-pub fn probe_chumsky_only() {
+#[kani::unwind(6)]
+pub fn probe_x1() {
     let s = &mut crate::sym::KaniSrc;
-    let t: [u8; 3] = [s.u8(), s.upto(4), s.upto(4)];
-    crate::sym::assume(t[1] <= t[2]);
-    let inp = Inp::<4>::any(s);
+    let t: [u8; 1] = [s.u8()];
+    let inp = Inp::<3>::any(s);
     let x = inp.get();
-    let p = then(sp(rep(sp(j(t[0])), t[1] as usize, t[2] as usize)), sp(rest()));
+    let p = just::<u8, &[u8], extra::Err<TagErr>>(t[0]).then(any()).validate(|o, e, em| { let sp: SimpleSpan = e.span(); em.emit(TagErr::new(1, sp)); em.emit(TagErr::new(2, sp)); o });
     let r = p.parse(x);
-    let out: Option<Tr> = r.output().copied();
-    kani::cover!(out.is_some());
-}
-
-#[cfg(kani)]
-#[kani::proof]
-#[kani::unwind(7)]
-pub fn probe_refsem_only() {
-    let s = &mut crate::sym::KaniSrc;
-    let t: [u8; 3] = [s.u8(), s.upto(4), s.upto(4)];
-    crate::sym::assume(t[1] <= t[2]);
-    let inp = Inp::<4>::any(s);
-    let x = inp.get();
-    const AST: G = G::Then(&G::Span(&G::Rep(&G::Span(&G::Just(0)), Cnt::P(1), Cnt::P(2))), &G::Span(&G::Rest));
-    let mut env = Env::new(x, &t);
-    let e = refsem::parse(&AST, &mut env);
-    kani::cover!(e.is_some());
-}
-
-#[cfg(kani)]
-#[kani::proof]
-#[kani::unwind(7)]
-pub fn probe_both() {
-    let s = &mut crate::sym::KaniSrc;
-    let t: [u8; 3] = [s.u8(), s.upto(4), s.upto(4)];
-    crate::sym::assume(t[1] <= t[2]);
-    let inp = Inp::<4>::any(s);
-    let x = inp.get();
-    let p = then(sp(rep(sp(j(t[0])), t[1] as usize, t[2] as usize)), sp(rest()));
-    let r = p.parse(x);
-    let out: Option<Tr> = r.output().copied();
-    const AST: G = G::Then(&G::Span(&G::Rep(&G::Span(&G::Just(0)), Cnt::P(1), Cnt::P(2))), &G::Span(&G::Rest));
-    let mut env = Env::new(x, &t);
-    let e = refsem::parse(&AST, &mut env);
-    kani::assert(same(&out, &e), "same");
-}
-
-#[cfg(kani)]
-#[kani::proof]
-#[kani::unwind(7)]
-pub fn probe_both_forget() {
-    let s = &mut crate::sym::KaniSrc;
-    let t: [u8; 3] = [s.u8(), s.upto(4), s.upto(4)];
-    crate::sym::assume(t[1] <= t[2]);
-    let inp = Inp::<4>::any(s);
-    let x = inp.get();
-    let p = then(sp(rep(sp(j(t[0])), t[1] as usize, t[2] as usize)), sp(rest()));
-    let r = p.parse(x);
-    let out: Option<Tr> = r.output().copied();
-    core::mem::forget(r);
-    const AST: G = G::Then(&G::Span(&G::Rep(&G::Span(&G::Just(0)), Cnt::P(1), Cnt::P(2))), &G::Span(&G::Rest));
-    let mut env = Env::new(x, &t);
-    let e = refsem::parse(&AST, &mut env);
-    kani::assert(same(&out, &e), "same");
-    core::mem::forget(p);
-}
-
-#[cfg(kani)]
-#[kani::proof]
-#[kani::unwind(7)]
-pub fn probe_nocover() {
-    let s = &mut crate::sym::KaniSrc;
-    let t: [u8; 3] = [s.u8(), s.upto(4), s.upto(4)];
-    crate::sym::assume(t[1] <= t[2]);
-    let inp = Inp::<4>::any(s);
-    let x = inp.get();
-    let p = then(sp(rep(sp(j(t[0])), t[1] as usize, t[2] as usize)), sp(rest()));
-    const AST: G = G::Then(&G::Span(&G::Rep(&G::Span(&G::Just(0)), Cnt::P(1), Cnt::P(2))), &G::Span(&G::Rest));
-    let r = p.parse(x);
-    crate::contract(&r);
-    let out: Option<Tr> = r.output().copied();
-    let perms: &[u8] = &[0u8];
-    let mut ok_acc = false;
-    let mut ok_out = false;
-    let mut k = 0;
-    while k < perms.len() {
-        let mut env = Env::new(x, &t);
-        env.perm = perms[k];
-        let e = refsem::parse(&AST, &mut env);
-        ok_acc |= e.is_some() == out.is_some();
-        ok_out |= same(&out, &e);
-        k += 1;
+    let (out, errs) = r.into_output_errors();
+    if out.is_some() {
+        kani::assert(errs.len() == 2, "n");
+        if errs.len() == 2 {
+            kani::assert(errs[0].0 & 0xff == 1, "id0");
+            kani::assert(errs[1].0 & 0xff == 2, "id1");
+        }
     }
-    kani::assert(ok_acc, "acc");
-    kani::assert(ok_out, "out");
 }
 #[cfg(kani)]
 #[kani::proof]
-#[kani::unwind(7)]
-pub fn probe_cover2() {
+#[kani::unwind(6)]
+pub fn probe_x2() {
+    use crate::prims::pt::*;
     let s = &mut crate::sym::KaniSrc;
-    let t: [u8; 3] = [s.u8(), s.upto(4), s.upto(4)];
-    crate::sym::assume(t[1] <= t[2]);
-    let inp = Inp::<4>::any(s);
+    let t: [u8; 2] = [s.u8(), s.u8()];
+    let inp = Inp::<3>::any(s);
     let x = inp.get();
-    let p = then(sp(rep(sp(j(t[0])), t[1] as usize, t[2] as usize)), sp(rest()));
-    const AST: G = G::Then(&G::Span(&G::Rep(&G::Span(&G::Just(0)), Cnt::P(1), Cnt::P(2))), &G::Span(&G::Rest));
+    let p = then(rec_via(then(j(t[0]), j(t[1])), to_(any_(), 0xFB)), ornot(any_()));
     let r = p.parse(x);
-    let out: Option<Tr> = r.output().copied();
-    let mut env = Env::new(x, &t);
-    let e = refsem::parse(&AST, &mut env);
-    kani::assert(same(&out, &e), "same");
-    kani::cover!(out.is_some());
-    kani::cover!(out.is_none());
+    let (out, errs) = r.into_output_errors();
+    if out.is_some() && errs.len() > 0 {
+        kani::assert(errs.len() == 1, "n");
+        kani::assert(errs[0].0 & 0xff == 0xEE, "id0");
+        kani::assert(errs[0].start() <= 1, "pos");
+    }
 }
-
 #[cfg(kani)]
 #[kani::proof]
-#[kani::unwind(7)]
-pub fn probe_gen() {
-    crate::gen::c02::c02_rep_bounds_body(&mut crate::sym::KaniSrc)
+#[kani::unwind(6)]
+pub fn probe_x3() {
+    use crate::prims::pt::*;
+    let s = &mut crate::sym::KaniSrc;
+    let t: [u8; 2] = [s.u8(), s.u8()];
+    let inp = Inp::<3>::any(s);
+    let x = inp.get();
+    let p = then(rec_via(then(j(t[0]), j(t[1])), to_(any_(), 0xFB)), ornot(val(any_(), 3)));
+    let r = p.parse(x);
+    let (out, errs) = r.into_output_errors();
+    if out.is_some() && errs.len() > 1 {
+        kani::assert(errs.len() == 2, "n");
+        kani::assert(errs[0].0 & 0xff == 0xEE, "id0");
+        kani::assert(errs[1].0 & 0xff == 3, "id1");
+    }
 }
